@@ -121,14 +121,32 @@ class DStr(str):
         return {'i': 'i', 'f': 'f', 'b': 'b', '>': 'f'}[str(self)[0]]
 
 
+class NpSymInt(SymInt):
+    """A symbolic numpy scalar (element of a numeric array): arithmetic stays a numpy scalar, so a result that
+    simplifies to a literal is np.int64 / np.float64 (has .astype etc.) as with real numpy."""
+    __slots__ = ()
+
+    def _mk(self, t, isfloat=False):
+        v = mk(t, isfloat)
+        if isinstance(v, SymInt):
+            return NpSymInt(v.t, v.isfloat)
+        if isinstance(v, float):
+            return real_np.float64(v)
+        return real_np.int64(v)
+
+
 def np_scalar(v, dtype):
     """Concrete element of a numeric lazy array as the numpy scalar real numpy would return."""
     if isinstance(v, bool):
         return real_np.bool_(v)
     if isinstance(v, int):
         return {'i4': real_np.int32, 'i8': real_np.int64, 'i2': real_np.int16, 'f8': real_np.float64, 'f4': real_np.float32}.get(str(dtype), real_np.int64)(v)
+    if isinstance(v, float):
+        return (real_np.float32 if str(dtype) == 'f4' else real_np.float64)(v)
     if isinstance(v, SymInt) and str(dtype) in ('f8', 'f4') and not v.isfloat:
-        return SymInt(v.t, True)
+        return NpSymInt(v.t, True)
+    if isinstance(v, SymInt):
+        return NpSymInt(v.t, v.isfloat)
     return v
 
 
@@ -298,8 +316,8 @@ class LazyArr:
             if base.kind == 'num' and val.kind == 'num' and base.dtype == 'i4' and val.dtype not in ('i4', 'bool'):
                 val = val.astype('i4')
         else:
-            if isinstance(val, (list, tuple)):
-                raise Unsupported("assignment of a python sequence")
+            if isinstance(val, (list, tuple)) and not (isinstance(val, tuple) and val and isinstance(val[0], str)):
+                raise Unsupported("assignment of a python sequence")      # (a tuple tagged with a str is a provenance record: opaque scalar)
             if base.kind == 'num' and base.dtype == 'i4' and _isint(val):
                 if is_sym(val) or not (-2 ** 31 <= int(val) < 2 ** 31):
                     if is_sym(val):
@@ -565,7 +583,34 @@ def from_numpy(a):
 
 
 def _mask_select(arr, mask):
-    raise Unsupported("boolean-mask selection")
+    """arr[mask] for 1-d arrays: the mask elements are evaluated one by one (a symbolic element forks)."""
+    if arr.ndim != 1 or mask.ndim != 1:
+        raise Unsupported("boolean-mask selection on n-d arrays")
+    n = arr.shape[0]
+    n = int(n) if is_sym(n) else n
+    m = mask.shape[0]
+    m = int(m) if is_sym(m) else m
+    if n != m:
+        raise IndexError("boolean index did not match indexed array along axis 0")
+    keep = []
+    for i in range(n):
+        v = mask.get((i,))
+        if isinstance(v, tuple):
+            raise Unsupported("boolean mask built from opaque values")
+        if v:
+            keep.append(i)
+    f = arr.frozen()
+    return LazyArr((len(keep),), lambda idx: f.get((_pick(keep, idx[0]),)), arr.kind, arr.dtype)
+
+
+def _pick(lst, i):
+    """lst[i] for a concrete list and a possibly symbolic index (forks over the feasible positions)."""
+    if not is_sym(i):
+        return lst[i]
+    for k, v in enumerate(lst):
+        if i == k:
+            return v
+    raise IndexError("index out of bounds")
 
 
 # ---------------------------------------------------------------------- numpy module shim
